@@ -1067,7 +1067,7 @@ func oracle(c core.Case, out []string) []core.Finding {
 				}
 				fs = append(fs, checkWellformed("valset.IncrementProposerPriority", s, false)...)
 				// turns proportional to power: in a window of k single rotations in which no rescale
-				// triggered, |k*power_i - turns_i*total| <= 6*total (priorities stay within 3*total)
+				// triggered, |k*power_i - turns_i*total| <= 5*total (Lean: turns_proportional_no_rescale)
 				if n == 1 && s.prop != nil {
 					T := cur.total()
 					mx, mn := new(big.Int).Set(cur.vals[0].prio), new(big.Int).Set(cur.vals[0].prio)
@@ -1084,7 +1084,7 @@ func oracle(c core.Case, out []string) []core.Finding {
 					} else {
 						winK++
 						winCnt[s.prop.addr]++
-						lim := new(big.Int).Mul(big.NewInt(6), T)
+						lim := new(big.Int).Mul(big.NewInt(5), T)
 						for _, v := range s.vals {
 							d := new(big.Int).Mul(big.NewInt(winK), v.power)
 							d.Sub(d, new(big.Int).Mul(big.NewInt(winCnt[v.addr]), T))
